@@ -55,6 +55,22 @@ def _param(rng, kind, p):
         return None, None, "optim"
     per_col = p > 1 and rng.random() < 0.6
     mean = rng.normal(0, 2, size=p if per_col else 1).round(3)
+    if rng.random() < 0.2:
+        # the same kinds of parameters given with INTEGER type (python ints, int64 arrays): valid
+        # fixed parameters like any other; integer arithmetic on them must not leak into the value
+        imean = rng.integers(-3, 4, size=p if per_col else 1)
+        ivar = rng.integers(1, 8, size=p if per_col else 1)
+        im = ND(imean.astype(np.int64)) if (per_col or rng.random() < 0.5) else int(imean[0])
+        iv = ND(ivar.astype(np.int64)) if (per_col or rng.random() < 0.5) else int(ivar[0])
+        if kind == "L2Cost":
+            return im, imean.astype(float), "fixed-int"
+        if kind == "GaussianVarCost":
+            return {"tuple": [im, iv]}, (imean.astype(float), ivar.astype(float)), "fixed-int"
+        if rng.random() < 0.5:
+            c = int(ivar[0])
+            return {"tuple": [im, c]}, (imean.astype(float), float(c) * np.eye(p)), "fixed-int"
+        d = rng.integers(1, 8, size=p)
+        return {"tuple": [im, ND(np.diag(d).astype(np.int64))]}, (imean.astype(float), np.diag(d).astype(float)), "fixed-int"
     if kind == "L2Cost":
         if per_col:
             return ND(mean), mean, "fixed-percol"
